@@ -118,6 +118,8 @@ def main(tier, replay_payload=None):
                     r["roles"], "+".join(cl), r["rt"], r["rm"], r["relation"])
                 run.fail(sig, dict(call=r["call"], failing=r["bad"], pre_state=r["vals"]),
                          dict(harness="c16seq", vals=r["vals"], clauses=cl))
+    from engine import battery
+    battery.validate(run)
     for fam, mod in (("C07", C07), ("C12", C12)):
         outs = conc.explore_scenarios(mod.W_ARGS, mod.scenarios_for(tier), bound, mp=True)
         before = set(run.failures)
